@@ -281,7 +281,8 @@ void run_c05() {
     sim::set_sample(sample_json(in, extra.str()));
 
     const std::string kind = io_kind(in, from_buffer);
-    check_leaks("C05", run, kind);
+    // thread/descriptor leaks are C07's subject: counted here, reported there
+    if (run.threads_left != 0 || run.fds_left != 0) { sim::probe("thread or descriptor left after the Reader was destroyed (C07 matter)"); }
     if (run.nonstd_exception) {
         sim::report("oracle", "C05.result/" + kind + "/non-std-exception", "non-std exception");
         return;
@@ -289,7 +290,9 @@ void run_c05() {
     if (ref.threw) {
         // input the library rejects even in the reference run: nothing to compare (fixtures are valid; generated o5m might not be)
         sim::probe("reference run rejected the input");
-        if (!run.threw && ro.entities == osmium::osm_entity_bits::all) {
+        // only comparable when the run decodes what the reference decodes (a file with an invalid metadata section
+        // is legitimately accepted with read_meta::no)
+        if (!run.threw && ro.entities == osmium::osm_entity_bits::all && ro.meta == osmium::io::read_meta::yes) {
             sim::report("oracle", "C05.result/" + kind + "/ref-throws-run-ok", "reference threw " + ref.exc_what + " but the run succeeded");
         }
         return;
@@ -338,11 +341,9 @@ void run_c05() {
         }
     }
     if (!run.read_after_eof_throws) {
-        sim::report("oracle", "C05.eof/" + kind + "/read-after-end-does-not-throw", "read() after the end-of-data marker did not throw osmium::io_error");
+        sim::report("oracle", "C05.eof/" + kind + "/read-after-end-does-not-fail", "read() after the end-of-data marker did not fail with an exception (it returned a buffer)");
     }
-    if (!run.eof_flag_ok) {
-        sim::report("oracle", "C05.eof/" + kind + "/eof-flag", "eof() false after end of data or after close()");
-    }
+    if (!run.eof_flag_ok) { sim::probe("eof() false after end of data or after close() (documented behaviour, not part of C05)"); }
     if (ro.buffers == osmium::io::buffers_type::single && !ro.use_iterator) {
         for (unsigned m : run.buffer_masks) {
             if (__builtin_popcount(m) > 1) {
@@ -435,7 +436,7 @@ void run_c05_convert() {
     sim::clear_values();
     sim::set_sample(sample_json(in, ",\"from_buffer\":" + std::string{from_buffer ? "true" : "false"} + ",\"pool\":" + std::to_string(pool_threads) + ",\"output\":\"" + out_suffix + "\",\"objects\":" + std::to_string(run.objs.size())));
     const std::string kind = io_kind(in, from_buffer);
-    check_leaks("C05", run, kind + "/convert");
+    if (run.threads_left != 0 || run.fds_left != 0) { sim::probe("thread or descriptor left after the Reader was destroyed (C07 matter)"); }
     if (writer_threw) {
         // e.g. PBF output rejects what the input format allowed: not a Reader matter
         sim::probe("the consuming Writer rejected the data");
@@ -505,8 +506,8 @@ void run_c05_multi() {
     for (const auto& in : inputs) { extra += in.suffix + " "; }
     extra += "\"";
     sim::set_sample(sample_json(inputs[0], extra));
-    if (threads_left != 0) { sim::report("oracle", "C05.leak/thread/multi", std::to_string(threads_left) + " threads left after all Readers on the shared pool were destroyed"); }
-    if (fds_left != 0) { sim::report("oracle", "C05.leak/fd/multi", "file descriptors left open: " + fd_desc); }
+    if (threads_left != 0 || fds_left != 0) { sim::probe("thread or descriptor left after the Readers were destroyed (C07 matter)"); }
+    (void)fd_desc;
     for (uint32_t i = 0; i < nreaders; ++i) {
         const std::string kind = io_kind(inputs[i], opts[i].from_buffer) + "/multi";
         if (refs[i].threw) {
